@@ -131,6 +131,47 @@ Proof.
   - intros (H1 & H2 & H3). repeat split; try assumption; intros x; apply H3.
 Qed.
 
+Lemma olist_eqb_spec a b : olist_eqb a b = true <-> a = b.
+Proof.
+  revert b. induction a as [|x r IH]; intros [|y q]; cbn [olist_eqb].
+  - split; reflexivity.
+  - split; discriminate.
+  - split; discriminate.
+  - rewrite andb_true_iff, oeqb_eq, IH. split; [intros [-> ->]; reflexivity|intros [= -> ->]; tauto].
+Qed.
+
+(* what the driver's [views] predicate means *)
+Lemma views_ok_sound len iter nth choose cf cfpred opsl ep :
+  views_ok len iter nth choose cf cfpred opsl ep = true ->
+  len = List.length iter /\ NoDup iter /\
+  (forall k, (k < List.length nth)%nat -> nth_error nth k = Some (nth_error iter k)) /\
+  List.length choose = len /\ (forall o, In o choose -> exists x, o = Some x /\ In x iter) /\
+  match cf with
+  | Some x => In x iter /\ cfpred x = true
+  | None => forall x, In x iter -> cfpred x = false
+  end /\
+  (forall ops out, In (ops, out) opsl -> out = list_run ops iter) /\
+  match ep with
+  | Some l => NoDup l /\ (forall x, In x l <-> In x iter)
+  | None => True
+  end.
+Proof.
+  unfold views_ok. rewrite !andb_true_iff, !Nat.eqb_eq, nodupb_spec, olist_eqb_spec, !forallb_forall.
+  intros [[[[[[[H1 H2] H3] H4] H5] H6] H7] H8]. repeat split; try assumption.
+  - intros k Hk. rewrite H3 at 1. rewrite nth_error_map, nth_error_nth' with (d := 0%nat) by (rewrite seq_length; exact Hk).
+    rewrite seq_nth by exact Hk. reflexivity.
+  - intros o Ho. specialize (H5 o Ho). destruct o as [x|]; [|discriminate]. exists x. split; [reflexivity|now apply mem_In].
+  - destruct cf as [x|].
+    + apply andb_true_iff in H6. destruct H6 as [H6 H6']. split; [now apply mem_In|assumption].
+    + rewrite forallb_forall in H6. intros x Hx. apply negb_true_iff. now apply H6.
+  - intros ops out Hin. specialize (H7 _ Hin). cbn [fst snd] in H7. now apply olist_eqb_spec.
+  - destruct ep as [l|]; [|exact I]. apply same_set_spec in H8. tauto.
+Qed.
+
+Lemma precomputed_ok_sound np iter : precomputed_ok np iter = true ->
+  NoDup np /\ NoDup iter /\ (forall x, In x np <-> In x iter).
+Proof. exact (proj1 (same_set_spec np iter)). Qed.
+
 Section Topo.
   Variables (dcf rackf : N -> option N).
   Notation in_dc := (in_dc dcf).
@@ -1369,6 +1410,45 @@ Section Topo.
     destruct s as [rf|m'| |]; destruct dc as [d|]; cbn [replicas_for] in E; try discriminate.
     - destruct (rf_lookup m' d); discriminate.
     - injection E as <-. exact Hk.
+  Qed.
+  (* the model's views satisfy the driver's [views] / [precomputed] predicates *)
+  Lemma views_model g pre t s dc n cf cfpred opss : sorted_weak g -> nts_keys_ok s ->
+    let r := replicas_for dcf rackf g pre t s dc in
+    let iter := rs_iter dcf rackf g pre t r in
+    match cf with
+    | Some x => In x iter /\ cfpred x = true
+    | None => forall x, In x iter -> cfpred x = false
+    end ->
+    views_ok (rs_len dcf g r) iter (map (rs_nth dcf rackf g pre t r) (seq 0 n))
+             (map (rs_choose dcf rackf g pre t r) (seq 0 (rs_len dcf g r))) cf cfpred
+             (map (fun ops => (ops, rs_run dcf rackf g pre t r ops)) opss) (Some iter) = true.
+  Proof.
+    intros Hs Hk. cbv zeta. intros Hcf. pose proof (len_view g pre t s dc Hk) as Hlen.
+    pose proof (iter_NoDup g pre t Hs s dc) as Hnd.
+    unfold views_ok. rewrite !andb_true_iff. repeat split.
+    - now apply Nat.eqb_eq.
+    - now apply nodupb_spec.
+    - apply olist_eqb_spec. rewrite map_length, seq_length. apply map_ext. intros k. apply nth_view.
+    - apply Nat.eqb_eq. now rewrite map_length, seq_length.
+    - apply forallb_forall. intros o Ho. apply in_map_iff in Ho. destruct Ho as (k & <- & Hk').
+      apply in_seq in Hk'. rewrite (choose_view' g pre t s dc k Hk).
+      destruct (nth_error (rs_iter dcf rackf g pre t (replicas_for dcf rackf g pre t s dc)) k) as [x|] eqn:E.
+      + apply mem_In. eapply nth_error_In; eassumption.
+      + apply nth_error_None in E. lia.
+    - destruct cf as [x|].
+      + destruct Hcf as [H1 H2]. rewrite H2. apply andb_true_iff. split; [now apply mem_In|reflexivity].
+      + apply forallb_forall. intros x Hx. apply negb_true_iff. now apply Hcf.
+    - apply forallb_forall. intros p Hp. apply in_map_iff in Hp. destruct Hp as (ops & <- & _). cbn [fst snd].
+      apply olist_eqb_spec. apply iter_ops_view.
+    - apply same_set_spec. repeat split; auto.
+  Qed.
+
+  Lemma precomputed_model g pre pre' t s dc : sorted_weak g ->
+    precomputed_ok (rs_iter dcf rackf g pre' t (replicas_for dcf rackf g pre' t s dc))
+                   (rs_iter dcf rackf g pre t (replicas_for dcf rackf g pre t s dc)) = true.
+  Proof.
+    intros Hs. unfold precomputed_ok. rewrite (precomputed_any g pre' pre t s dc Hs).
+    apply same_set_spec. pose proof (iter_NoDup g pre t Hs s dc). repeat split; auto.
   Qed.
 End Topo.
 
